@@ -162,3 +162,7 @@ mod tests {
         assert_eq!(burnfee, 150755672);
     }
 }
+
+#[cfg(all(test, saito_verif))]
+#[path = "/verif/replay/in_crate/burnfee.rs"]
+mod verif_replay;
